@@ -33,6 +33,8 @@ def tcp_session(cls, segments, rec, keep=False):
   exc = None
   exc_at = None
   for i, seg in enumerate(segments):
+    if t.disconnecting:
+      break          # loseConnection() stops reading (twisted's FileDescriptor): nothing more is delivered to the protocol
     try:
       p.dataReceived(seg)
     except Exception as e:   # must never happen (C11); in production twisted would drop the connection
